@@ -79,6 +79,7 @@ func runC15(c *an.Ctx) {
 		bcs := callsTo(verifyFn, bif)
 		lcs := callsTo(verifyFn, localHead)
 		c.Min("C15.a", "bifurcation entry points", len(bcs), 1)
+		checkSoftFailureAlwaysSearched(c, "C15.a", verifyFn, bif)
 		if len(vcs) == 1 && len(lcs) == 1 {
 			vc := vcs[0]
 			vErr := t.Of(vc)
